@@ -4048,15 +4048,16 @@ def native_numpy_sort(dtype, raw, parents, outlength, ascending, stable, arg, gr
 
 def jobs_numpy_sort(tier):
     js = []
-    dts = ['int64', 'int8', 'uint32', 'float64', 'bool'] if tier == 'quick' else sorted(NP_DTYPES)
+    dts = sorted(NP_DTYPES)          # every leaf type in both tiers: each has its own case of the dtype switch (a seeded change sat in the uint64 one)
     Ps = [(0, 0, 1)] if tier == 'quick' else [(0, 0, 1), (0, 0, 0), (1, 1, 2, 2), (0,), ()]
+    full = ('int64', 'float64', 'uint64')
     for dt in dts:
         for P in Ps:
             if NP_DTYPES[dt][4] == 'f' and max([P.count(g) for g in set(P)] + [0]) > 2:
                 continue          # three floating-point keys through the inlined sort do not finish in z3 (stated bound: float groups of <= 2)
             for arg in (False, True):
-                for asc in (True, False):
-                    for st in ((True, False) if tier != 'quick' or dt in ('int64', 'float64') else (True,)):
+                for asc in ((True, False) if tier != 'quick' or dt in full else (True,)):
+                    for st in ((True, False) if tier != 'quick' or dt in full[:2] else (True,)):
                         js.append((h_numpy_sort, (dt, P, asc, st, arg), 1800))
     return js
 
